@@ -16,9 +16,11 @@ class Deadlock(Exception):
 
 
 class Sched:
-    def __init__(self, sp, K=2, on_idle=None, max_steps=20000, world=None):
+    def __init__(self, sp, K=2, on_idle=None, max_steps=20000, world=None, pause_max_ms=0):
         self.sp = sp
         self.world = world
+        self.pause_max_ms = pause_max_ms  # a pre-empted actor is PAUSED: virtual time may jump by [0, pause_max_ms]
+        self.npause = 0
         self.K = K
         self.preempts = 0
         self.cv = threading.Condition()
@@ -49,6 +51,9 @@ class Sched:
             if c == 0:
                 return cur
             self.preempts += 1
+            if self.pause_max_ms and self.world is not None:
+                self.npause += 1
+                self.world.clock.advance_sym(f"pause{self.npause}", 0, self.pause_max_ms)
             return others[c - 1]
         c = self.sp.choose(len(enabled), name=f"s{len(self.trace)}")
         return enabled[c]
